@@ -1,8 +1,12 @@
-(* C05 - every failure is an error value: no input crashes or hangs the interpreter. Property theorems only (proofs in proofs/ParserTermination.v). Front end: for EVERY token list the parser terminates within the fuel the model gives it and never panics; for EVERY text the lexer consumes its whole input with strictly increasing offsets. The compiler is structurally recursive on the tree (no fuel: termination by Coq's guard). MACHINE (proofs/VMTotal.v, VMTotalB.v): under the conjunction of the verifier invariant (C02), the collector invariant (C03) and an integer-range invariant, a step never yields ANY fault; hence eval_total: for every text, evaluation is a value, one of the documented error kinds, or the budget/display-depth exit - never a panic - given a certificate for the compiled code (established per program on the real bytecode; compile_certifies in progress). *)
+(* C05 - every failure is an error value: no input crashes or hangs the interpreter. Property theorems only (proofs in proofs/ParserTermination.v). Front end: for EVERY token list the parser terminates within the fuel the model gives it and never panics; for EVERY text the lexer consumes its whole input with strictly increasing offsets. The compiler is structurally recursive on the tree (no fuel: termination by Coq's guard). MACHINE (proofs/VMTotal.v, VMTotalB.v): under the conjunction of the verifier invariant (C02), the collector invariant (C03) and an integer-range invariant, a step never yields ANY fault; hence eval_total: for every text, evaluation is a value, one of the documented error kinds, or the budget/display-depth exit - never a panic - and the compiler always emits certifiable code (compile_certifies, C02): eval_never_panics. *)
 From NL.Model Require Import Parser Pipeline.
 From NL.Spec Require Import Printer Verify VMInv.
-From NL.Proofs Require ParserTermination CompilerTotal VMTotal VMTotalB.
+From NL.Proofs Require ParserTermination CompilerTotal VMTotal VMTotalB EvalTotal.
 
+
+(* THE property at model level, unconditional in the program: for EVERY input text and budget, evaluation is a front-end error VALUE, or a run whose result is a value, an error kind or out-of-fuel (budget, or display of an array nested deeper than the bound: D26) - never a panic/fault of any kind (hypotheses: str::parse::<f64> accepts digits.digits; fewer than 2^60 allocations) *)
+Theorem eval_never_panics : forall (u : unicode) (orc : oracle) (src : text) (budget : nat), (forall s : text, CompilerTotal.float_shape s -> parse_float orc s <> None) -> (forall bc : bytecode, front u orc src = Ok bc -> Z.of_nat (length (b_constants bc)) + Z.of_nat budget + 1 < 2 ^ 60) -> match eval u orc src budget with | FrontError r => exists k : errkind, r = Err k | Ran _ o => match o_result o with | Fault _ => False | _ => True end end.
+Proof. exact EvalTotal.eval_never_panics. Qed.
 
 (* parsing terminates: the fuel the model hands the Pratt parser (linear in the number of tokens) is never exhausted, for every token list whatsoever and every float oracle. (The pinned tree violated this: `functie (` looped forever.) *)
 Theorem parse_terminates : forall (pf : text -> option float) (ts : list token), parse_tokens pf ts <> OutOfFuel.
@@ -98,6 +102,7 @@ Proof. exact VMTotalB.front_kints. Qed.
 
 Example functie_paren_terminates : exists k, parse_tokens (fun _ => None) [TFix KFunc; TFix KOpenParen] = Err k.
 Proof. eexists; vm_compute; reflexivity. Qed.
+Print Assumptions eval_never_panics.
 Print Assumptions parse_terminates.
 Print Assumptions parse_terminates_bound.
 Print Assumptions parse_fuel_tight.
